@@ -28,7 +28,7 @@ func solveBatch(sc *Script, obs []*Obligation, o SolveOpts, idx int) {
 		return
 	}
 	var b bytes.Buffer
-	b.WriteString("(set-option :timeout 4000)\n(set-logic ALL)\n")
+	b.WriteString("(set-option :timeout 1500)\n(set-logic ALL)\n")
 	for _, c := range sc.cmds {
 		if c.kind == cDeclSort {
 			b.WriteString(c.text + "\n")
@@ -67,7 +67,7 @@ func solveBatch(sc *Script, obs []*Obligation, o SolveOpts, idx int) {
 	if err := os.WriteFile(file, b.Bytes(), 0o644); err != nil {
 		return
 	}
-	r := runSolver(solverSpec{"z3-5.1.0", func(f string, t int) []string { return []string{"z3-new", f} }}, file, 4000*len(order)+20000)
+	r := runSolver(solverSpec{"z3-5.1.0", func(f string, t int) []string { return []string{"z3-new", f} }}, file, 1500*len(order)+20000)
 	noteSolve(solveResult{status: "batch", solver: "z3-5.1.0", secs: r.secs})
 	var answers []string
 	for _, ln := range strings.Split(r.out, "\n") {
